@@ -9,6 +9,9 @@ package hx
 
 import (
 	"fmt"
+	"io"
+	"os"
+	"path/filepath"
 
 	"verifmc/internal/ops"
 	"verifmc/internal/vnode"
@@ -49,13 +52,102 @@ type Explorer struct {
 	Commute func(a, b ops.Op) bool
 	// SplitDepth: paths are assigned to shards by the index of their prefix of this length (default 2).
 	SplitDepth int
+	// SnapshotBases: execute each base prefix once per worker instead of once per path. The prefix up to its last
+	// operation after which the pool is empty runs on a node that is then stopped; every path starts from a copy of that
+	// node's directories (i.e. a node restarted on the base state: cold caches, empty pool) and replays only the
+	// remaining prefix operations. For long prefixes (dozens of momentums) this is the difference between seconds and
+	// minutes; the explored state space starts from a restarted node instead of a warm one.
+	SnapshotBases bool
+	snaps         map[string]*snap
 }
 
-func (e *Explorer) newNode() *vnode.Node {
+type snap struct {
+	dir  string
+	tail []ops.Op
+}
+
+func (e *Explorer) newNodeAt(dir string) *vnode.Node {
 	if e.NewNode != nil {
-		return e.NewNode(e.Ctx.TempDir())
+		return e.NewNode(dir)
 	}
-	return vnode.New(vnode.Options{Dir: e.Ctx.TempDir()})
+	return vnode.New(vnode.Options{Dir: dir})
+}
+
+func (e *Explorer) newNode() *vnode.Node { return e.newNodeAt(e.Ctx.TempDir()) }
+
+// baseNode returns a node on which the base prefix has been applied.
+func (e *Explorer) baseNode(b Base) *vnode.Node {
+	if !e.SnapshotBases || len(b.Prefix) == 0 {
+		n := e.newNode()
+		for _, o := range b.Prefix {
+			ops.Apply(n, o)
+		}
+		return n
+	}
+	if e.snaps == nil {
+		e.snaps = map[string]*snap{}
+	}
+	sn := e.snaps[b.Name]
+	if sn == nil {
+		// pass 1: find the last prefix position after which nothing is pooled
+		n := e.newNode()
+		cut := -1
+		for i, o := range b.Prefix {
+			ops.Apply(n, o)
+			if len(n.PoolBlocks()) == 0 {
+				cut = i
+			}
+		}
+		n.Destroy()
+		// pass 2: the snapshot
+		sn = &snap{dir: e.Ctx.TempDir(), tail: b.Prefix[cut+1:]}
+		n = e.newNodeAt(sn.dir)
+		for _, o := range b.Prefix[:cut+1] {
+			ops.Apply(n, o)
+		}
+		n.Stop()
+		e.snaps[b.Name] = sn
+	}
+	dir := e.Ctx.TempDir()
+	copyTree(sn.dir, dir)
+	n := e.newNodeAt(dir)
+	for _, o := range sn.tail {
+		ops.Apply(n, o)
+	}
+	return n
+}
+
+func copyTree(src, dst string) {
+	err := filepath.Walk(src, func(p string, info os.FileInfo, err error) error {
+		if err != nil {
+			return err
+		}
+		rel, _ := filepath.Rel(src, p)
+		t := filepath.Join(dst, rel)
+		if info.IsDir() {
+			return os.MkdirAll(t, 0o755)
+		}
+		if info.Name() == "LOCK" {
+			return nil
+		}
+		in, err := os.Open(p)
+		if err != nil {
+			return err
+		}
+		defer in.Close()
+		out, err := os.Create(t)
+		if err != nil {
+			return err
+		}
+		if _, err = io.Copy(out, in); err != nil {
+			out.Close()
+			return err
+		}
+		return out.Close()
+	})
+	if err != nil {
+		panic(err)
+	}
 }
 
 // Run explores everything. Counters: states (distinct state keys), transitions (operations executed and checked),
@@ -141,11 +233,8 @@ func prefixKey(path []int, n int) string {
 
 func (e *Explorer) execute(b Base, path []int, seen map[string]visit) int {
 	r := e.Res
-	n := e.newNode()
+	n := e.baseNode(b)
 	defer n.Destroy()
-	for _, o := range b.Prefix {
-		ops.Apply(n, o)
-	}
 	if e.OnBase != nil {
 		e.OnBase(b, n)
 	}
